@@ -1,4 +1,7 @@
-(* Invariants of the lossy-counting model (C20). *)
+(* Invariants of the lossy-counting model (C20) and the refinement
+   "for every threshold and every stream the model's public observation
+   satisfies the Spec predicate that the correspondence check evaluates". *)
+From Coq Require Import Permutation ZifyBool ZifyN ZifyNat.
 From Boltons Require Import Lib.Prelude Model.C20_Model Spec.C20_Spec.
 Open Scope N_scope.
 
@@ -17,3 +20,419 @@ Qed.
 
 Lemma total_counts_additions w ks : tc_total (tc_adds (tc_init w) ks) = N.of_nat (length ks).
 Proof. rewrite tc_adds_total. reflexivity. Qed.
+
+(* ---- the stream ----------------------------------------------------------- *)
+Lemma count_nat_app x l1 l2 : count_nat x (l1 ++ l2) = count_nat x l1 + count_nat x l2.
+Proof. induction l1 as [|y r IH]; cbn [count_nat app]; [reflexivity|]. rewrite IH. lia. Qed.
+
+Lemma true_count_snoc hist k k' :
+  true_count (hist ++ [k]) k' = true_count hist k' + (if Nat.eqb k' k then 1 else 0).
+Proof. unfold true_count. rewrite count_nat_app. cbn [count_nat]. lia. Qed.
+
+(* ---- bump ----------------------------------------------------------------- *)
+Definition cnt (e : K * (N * N)) : N := fst (snd e).
+
+Lemma d_get_bump m k b k' :
+  d_get (bump m k b) k' =
+  if Nat.eqb k' k
+  then Some (match d_get m k with Some (c, dl) => (c + 1, dl) | None => (1, b - 1) end)
+  else d_get m k'.
+Proof.
+  induction m as [|[k0 [c dl]] r IH]; cbn [bump d_get].
+  - destruct (Nat.eqb k' k) eqn:E; reflexivity.
+  - destruct (Nat.eqb k k0) eqn:E0; cbn [d_get].
+    + apply Nat.eqb_eq in E0; subst k0.
+      destruct (Nat.eqb k' k) eqn:E; reflexivity.
+    + destruct (Nat.eqb k' k0) eqn:E1.
+      * apply Nat.eqb_eq in E1; subst k0.
+        destruct (Nat.eqb k' k) eqn:E; [|reflexivity].
+        apply Nat.eqb_eq in E; subst. rewrite Nat.eqb_refl in E0. discriminate.
+      * exact IH.
+Qed.
+
+Lemma d_get_None_notin {B} (m : pydict B) k : d_get m k = None <-> ~ In k (map fst m).
+Proof.
+  induction m as [|[k0 v] r IH]; cbn [d_get map fst In].
+  - split; [intros _ []|reflexivity].
+  - destruct (Nat.eqb k k0) eqn:E.
+    + apply Nat.eqb_eq in E; subst. split; [discriminate|]. intro H; exfalso; apply H; left; reflexivity.
+    + apply Nat.eqb_neq in E. rewrite IH. split.
+      * intros H [H1|H1]; [congruence|tauto].
+      * intros H H1; apply H; right; exact H1.
+Qed.
+
+Lemma bump_keys m k b :
+  map fst (bump m k b) = if d_mem m k then map fst m else map fst m ++ [k].
+Proof.
+  unfold d_mem. induction m as [|[k0 [c dl]] r IH]; cbn [bump d_get map fst app]; [reflexivity|].
+  destruct (Nat.eqb k k0) eqn:E; cbn [map fst]; [reflexivity|].
+  rewrite IH. destruct (d_get r k); reflexivity.
+Qed.
+
+Lemma bump_nodup m k b : NoDup (map fst m) -> NoDup (map fst (bump m k b)).
+Proof.
+  intro H. rewrite bump_keys. unfold d_mem. destruct (d_get m k) eqn:E; [exact H|].
+  apply d_get_None_notin in E.
+  apply NoDup_rev in H. rewrite <- (rev_involutive (map fst m ++ [k])).
+  apply NoDup_rev. rewrite rev_app_distr. cbn [rev app]. constructor; [|exact H].
+  rewrite <- in_rev. exact E.
+Qed.
+
+Lemma bump_sum m k b : sumN (map cnt (bump m k b)) = sumN (map cnt m) + 1.
+Proof.
+  induction m as [|[k0 [c dl]] r IH]; cbn [bump map sumN]; [unfold cnt; cbn [fst snd]; lia|].
+  destruct (Nat.eqb k k0); cbn [map sumN]; unfold cnt at 1 3; cbn [fst snd]; lia.
+Qed.
+
+(* ---- association lists with distinct keys ---------------------------------- *)
+Lemma d_get_In {B} (m : pydict B) k v :
+  NoDup (map fst m) -> (d_get m k = Some v <-> In (k, v) m).
+Proof.
+  induction m as [|[k0 v0] r IH]; cbn [d_get map fst In]; intro ND.
+  - split; [discriminate|intros []].
+  - inversion ND as [|? ? Hnot ND']; subst.
+    destruct (Nat.eqb k k0) eqn:E.
+    + apply Nat.eqb_eq in E; subst k0. split.
+      * intro H; inversion H; subst. left; reflexivity.
+      * intros [H|H]; [inversion H; reflexivity|].
+        exfalso. apply Hnot. apply in_map_iff. exists (k, v). split; [reflexivity|exact H].
+    + apply Nat.eqb_neq in E. rewrite (IH ND'). split.
+      * intro H; right; exact H.
+      * intros [H|H]; [inversion H; congruence|exact H].
+Qed.
+
+Lemma filter_keys_nodup {B} (f : K * B -> bool) (m : pydict B) :
+  NoDup (map fst m) -> NoDup (map fst (filter f m)).
+Proof.
+  induction m as [|[k0 v0] r IH]; cbn [filter map fst]; intro ND; [constructor|].
+  inversion ND as [|? ? Hnot ND']; subst.
+  destruct (f (k0, v0)); cbn [map fst]; [|apply IH; exact ND'].
+  constructor; [|apply IH; exact ND'].
+  intro H. apply Hnot. apply in_map_iff in H as [[k1 v1] [E H]]. cbn [fst] in E. subst k1.
+  apply filter_In in H as [H _]. apply in_map_iff. exists (k0, v1). split; [reflexivity|exact H].
+Qed.
+
+Lemma d_get_filter_some {B} (f : K * B -> bool) (m : pydict B) k v :
+  NoDup (map fst m) ->
+  (d_get (filter f m) k = Some v <-> d_get m k = Some v /\ f (k, v) = true).
+Proof.
+  intro ND. rewrite (d_get_In _ _ _ (filter_keys_nodup f m ND)), (d_get_In _ _ _ ND).
+  apply filter_In.
+Qed.
+
+Lemma d_get_filter_none {B} (f : K * B -> bool) (m : pydict B) k :
+  NoDup (map fst m) -> d_get (filter f m) k = None ->
+  d_get m k = None \/ exists v, d_get m k = Some v /\ f (k, v) = false.
+Proof.
+  intros ND H. destruct (d_get m k) as [v|] eqn:E; [|left; reflexivity].
+  right. exists v. split; [reflexivity|].
+  destruct (f (k, v)) eqn:F; [|reflexivity].
+  assert (d_get (filter f m) k = Some v) by (apply d_get_filter_some; auto).
+  congruence.
+Qed.
+
+Lemma filter_sum (f : K * (N * N) -> bool) m : sumN (map cnt (filter f m)) <= sumN (map cnt m).
+Proof.
+  induction m as [|e r IH]; cbn [filter map sumN]; [lia|].
+  destruct (f e); cbn [map sumN]; lia.
+Qed.
+
+(* ---- division by the (variable) bucket width: kept away from lia ------------- *)
+Lemma div_succ_le T w : 1 <= w -> T / w <= (T + 1) / w.
+Proof. intro H. apply N.div_le_mono; lia. Qed.
+
+Lemma div_succ_exact T w : 1 <= w -> (T + 1) mod w = 0 -> (T + 1) / w = T / w + 1.
+Proof.
+  intros Hw Hm. pose proof (N.div_mod (T + 1) w ltac:(lia)) as E. rewrite Hm in E.
+  set (q := (T + 1) / w) in *. assert (q <> 0) by nia.
+  assert (q - 1 = T / w); [|lia].
+  apply N.div_unique with (r := w - 1); [lia|nia].
+Qed.
+
+Lemma div_succ_same T w : 1 <= w -> (T + 1) mod w <> 0 -> (T + 1) / w = T / w.
+Proof.
+  intros Hw Hm. pose proof (N.div_mod (T + 1) w ltac:(lia)) as E.
+  pose proof (N.mod_lt (T + 1) w ltac:(lia)) as L.
+  set (q := (T + 1) / w) in *. set (r := (T + 1) mod w) in *.
+  apply N.div_unique with (r := r - 1); [lia|nia].
+Qed.
+
+(* ---- the invariant ------------------------------------------------------------ *)
+Record Inv (w : N) (hist : list K) (s : tc) : Prop := mkInv {
+  inv_w : tc_w s = w;
+  inv_total : tc_total s = N.of_nat (length hist);
+  inv_bucket : tc_bucket s = tc_total s / w + 1;
+  inv_nodup : NoDup (map fst (tc_map s));
+  inv_entries : forall k c dl, d_get (tc_map s) k = Some (c, dl) ->
+      1 <= c /\ c <= true_count hist k /\ true_count hist k <= c + dl /\ dl <= tc_total s / w;
+  inv_untracked : forall k, d_get (tc_map s) k = None -> true_count hist k <= tc_total s / w;
+  inv_sum : sumN (map cnt (tc_map s)) <= tc_total s
+}.
+
+Lemma inv_init w : Inv w [] (tc_init w).
+Proof.
+  constructor; cbn [tc_init tc_w tc_total tc_bucket tc_map length map sumN d_get].
+  - reflexivity.
+  - reflexivity.
+  - destruct w; reflexivity.
+  - constructor.
+  - discriminate.
+  - intros k _. unfold true_count. cbn [count_nat]. apply N.le_0_l.
+  - lia.
+Qed.
+
+Lemma inv_step w hist s k : 1 <= w -> Inv w hist s -> Inv w (hist ++ [k]) (tc_add s k).
+Proof.
+  intros Hw [Iw It Ib Ind Ie Iu Is].
+  set (T := tc_total s) in *. set (b := tc_bucket s) in *. set (m := tc_map s) in *.
+  set (m' := bump m k b).
+  assert (ND' : NoDup (map fst m')) by (apply bump_nodup; exact Ind).
+  (* entries of the bumped map, against the extended stream and the OLD slack *)
+  assert (E' : forall k' c dl, d_get m' k' = Some (c, dl) ->
+            1 <= c /\ c <= true_count (hist ++ [k]) k' /\
+            true_count (hist ++ [k]) k' <= c + dl /\ dl <= T / w).
+  { intros k' c dl H. unfold m' in H. rewrite d_get_bump in H. rewrite true_count_snoc.
+    destruct (Nat.eqb k' k) eqn:E.
+    - apply Nat.eqb_eq in E; subst k'. destruct (d_get m k) as [[c0 dl0]|] eqn:G.
+      + inversion H; subst. specialize (Ie _ _ _ G). lia.
+      + inversion H; subst. specialize (Iu _ G). lia.
+    - specialize (Ie _ _ _ H). lia. }
+  assert (U' : forall k', d_get m' k' = None -> true_count (hist ++ [k]) k' <= T / w).
+  { intros k' H. unfold m' in H. rewrite d_get_bump in H. rewrite true_count_snoc.
+    destruct (Nat.eqb k' k); [discriminate|]. specialize (Iu _ H). lia. }
+  assert (S' : sumN (map cnt m') = sumN (map cnt m) + 1) by apply bump_sum.
+  assert (Hdiv : T / w <= (T + 1) / w) by (apply div_succ_le; exact Hw).
+  unfold tc_add. fold T b m m'. rewrite Iw.
+  destruct ((T + 1) mod w =? 0) eqn:C.
+  - (* compaction *)
+    apply N.eqb_eq in C.
+    assert (Hq : (T + 1) / w = T / w + 1) by (apply div_succ_exact; assumption).
+    constructor; cbn [tc_w tc_total tc_bucket tc_map].
+    + reflexivity.
+    + rewrite app_length. cbn [length]. lia.
+    + lia.
+    + apply filter_keys_nodup; exact ND'.
+    + intros k' c dl H. apply d_get_filter_some in H as [H _]; [|exact ND'].
+      specialize (E' _ _ _ H). lia.
+    + intros k' H. apply d_get_filter_none in H; [|exact ND'].
+      destruct H as [H|[[c dl] [H F]]].
+      * specialize (U' _ H). lia.
+      * specialize (E' _ _ _ H). unfold keep in F. lia.
+    + pose proof (filter_sum (keep b) m'). lia.
+  - apply N.eqb_neq in C.
+    assert (Hq : (T + 1) / w = T / w) by (apply div_succ_same; assumption).
+    constructor; cbn [tc_w tc_total tc_bucket tc_map].
+    + reflexivity.
+    + rewrite app_length. cbn [length]. lia.
+    + lia.
+    + exact ND'.
+    + intros k' c dl H. specialize (E' _ _ _ H). lia.
+    + intros k' H. specialize (U' _ H). lia.
+    + lia.
+Qed.
+
+Lemma inv_adds w ks : 1 <= w -> forall hist s, Inv w hist s -> Inv w (hist ++ ks) (tc_adds s ks).
+Proof.
+  intro Hw. induction ks as [|k ks IH]; intros hist s I; cbn [tc_adds fold_left].
+  - rewrite app_nil_r. exact I.
+  - replace (hist ++ k :: ks) with ((hist ++ [k]) ++ ks) by (rewrite <- app_assoc; reflexivity).
+    apply IH. apply inv_step; assumption.
+Qed.
+
+Lemma inv_reachable w ks : 1 <= w -> Inv w ks (tc_adds (tc_init w) ks).
+Proof. intro Hw. apply (inv_adds w ks Hw [] (tc_init w)). apply inv_init. Qed.
+
+(* ---- sorting ---------------------------------------------------------------------- *)
+Lemma kn_eqb_eq x y : pair_eqb Nat.eqb N.eqb x y = true <-> x = y.
+Proof.
+  destruct x as [a b], y as [c d]. unfold pair_eqb. cbn [fst snd].
+  rewrite andb_true_iff, Nat.eqb_eq, N.eqb_eq. split; [intros [-> ->]; reflexivity|].
+  intro H; inversion H; auto.
+Qed.
+
+Lemma remove1_split x l : In x l ->
+  exists a b, l = a ++ x :: b /\ remove1 x l = Some (a ++ b).
+Proof.
+  induction l as [|y r IH]; intros H; [destruct H|]. cbn [remove1].
+  destruct (pair_eqb Nat.eqb N.eqb x y) eqn:E.
+  - apply kn_eqb_eq in E; subst. exists [], r. split; reflexivity.
+  - destruct H as [H|H]; [subst; assert (pair_eqb Nat.eqb N.eqb x x = true) by (apply kn_eqb_eq; reflexivity); congruence|].
+    destruct (IH H) as (a & b0 & -> & R). rewrite R. exists (y :: a), b0. split; reflexivity.
+Qed.
+
+Lemma perm_b_complete l1 : forall l2, Permutation l1 l2 -> perm_b l1 l2 = true.
+Proof.
+  induction l1 as [|x r IH]; intros l2 P; cbn [perm_b].
+  - apply Permutation_nil in P; subst; reflexivity.
+  - assert (Hin : In x l2) by (eapply Permutation_in; [exact P|left; reflexivity]).
+    destruct (remove1_split x l2 Hin) as (a & b0 & -> & R). rewrite R.
+    apply IH. eapply Permutation_cons_app_inv. exact P.
+Qed.
+
+Lemma ins_desc_perm x l : Permutation (ins_desc x l) (x :: l).
+Proof.
+  induction l as [|y r IH]; cbn [ins_desc]; [apply Permutation_refl|].
+  destruct (snd x <? snd y); [|apply Permutation_refl].
+  eapply Permutation_trans; [apply perm_skip; exact IH|apply perm_swap].
+Qed.
+
+Lemma sort_desc_perm l : Permutation (sort_desc l) l.
+Proof.
+  induction l as [|x r IH]; cbn [sort_desc fold_right]; [constructor|].
+  eapply Permutation_trans; [apply ins_desc_perm|]. apply perm_skip. exact IH.
+Qed.
+
+Lemma sorted_desc_cons x y r :
+  sorted_desc (x :: y :: r) = (snd y <=? snd x) && sorted_desc (y :: r).
+Proof. reflexivity. Qed.
+
+Lemma ins_desc_sorted x l : sorted_desc l = true -> sorted_desc (ins_desc x l) = true.
+Proof.
+  induction l as [|y r IH]; intro H; cbn [ins_desc]; [reflexivity|].
+  destruct (snd x <? snd y) eqn:E.
+  - destruct r as [|z r'].
+    + cbn [ins_desc]. rewrite sorted_desc_cons. cbn [sorted_desc]. rewrite andb_true_r. lia.
+    + rewrite sorted_desc_cons in H. apply andb_true_iff in H as [H1 H2].
+      specialize (IH H2). cbn [ins_desc] in IH |- *.
+      destruct (snd x <? snd z) eqn:E2; rewrite sorted_desc_cons; apply andb_true_iff; split;
+        try assumption; lia.
+  - rewrite sorted_desc_cons. apply andb_true_iff. split; [lia|exact H].
+Qed.
+
+Lemma sort_desc_sorted l : sorted_desc (sort_desc l) = true.
+Proof.
+  induction l as [|x r IH]; cbn [sort_desc fold_right]; [reflexivity|].
+  apply ins_desc_sorted. exact IH.
+Qed.
+
+(* ---- small reflexivity facts --------------------------------------------------------- *)
+Lemma list_eqb_refl {A} (eqb : A -> A -> bool) (H : forall a, eqb a a = true) l : list_eqb eqb l l = true.
+Proof. induction l as [|x r IH]; cbn [list_eqb]; [reflexivity|]. rewrite H, IH. reflexivity. Qed.
+
+Lemma kn_eqb_refl x : pair_eqb Nat.eqb N.eqb x x = true.
+Proof. apply kn_eqb_eq. reflexivity. Qed.
+
+Lemma nodup_b_NoDup l : NoDup l -> nodup_b l = true.
+Proof.
+  induction 1 as [|x r Hn _ IH]; cbn [nodup_b]; [reflexivity|]. rewrite IH, andb_true_r.
+  apply negb_true_iff. destruct (existsb (Nat.eqb x) r) eqn:E; [|reflexivity].
+  apply existsb_exists in E as [y [Hy E]]. apply Nat.eqb_eq in E. subst. contradiction.
+Qed.
+
+Lemma items_keys s : map fst (tc_items s) = map fst (tc_map s).
+Proof. unfold tc_items. rewrite map_map. reflexivity. Qed.
+
+Lemma items_counts s : map snd (tc_items s) = map cnt (tc_map s).
+Proof. unfold tc_items. rewrite map_map. reflexivity. Qed.
+
+Lemma find_items m probe :
+  match find (fun e : K * N => Nat.eqb (fst e) probe) (map (fun e : K * (N * N) => (fst e, fst (snd e))) m) with
+  | Some e => snd e | None => 0 end
+  = match d_get m probe with Some (c, _) => c | None => 0 end.
+Proof.
+  induction m as [|[k0 [c dl]] r IH]; cbn [map find d_get fst snd]; [reflexivity|].
+  rewrite (Nat.eqb_sym k0 probe). destruct (Nat.eqb probe k0); [reflexivity|exact IH].
+Qed.
+
+(* ---- the refinement: the model's observation meets the Spec ---------------------- *)
+Lemma model_meets_spec w ks n probe : 1 <= w ->
+  let o := observe (tc_adds (tc_init w) ks) n probe in
+  spec_core w ks (o_total o) (o_items o) (o_common o) (o_uncommon o) (o_mc_all o) (o_mc_n o)
+            n (o_len o) probe (o_probe o) (o_keys o) (o_values o) (o_elems o) = true.
+Proof.
+  intros Hw. set (s := tc_adds (tc_init w) ks).
+  destruct (inv_reachable w ks Hw) as [Iw It Ib Ind Ie Iu Is]. fold s in Iw, It, Ib, Ind, Ie, Iu, Is.
+  cbv zeta. unfold observe. cbn [o_total o_items o_common o_uncommon o_mc_all o_mc_n o_len o_probe o_keys o_values o_elems].
+  unfold spec_core.
+  repeat (apply andb_true_intro; split).
+  - apply N.eqb_eq. exact It.
+  - apply forallb_forall. intros [k c] Hin. unfold tc_items in Hin. apply in_map_iff in Hin as [[k0 [c0 dl]] [E Hin]].
+    cbn [fst snd] in E. inversion E; subst k0 c0.
+    apply (d_get_In _ _ _ Ind) in Hin. specialize (Ie _ _ _ Hin).
+    unfold item_ok, slack. rewrite <- It. lia.
+  - apply nodup_b_NoDup. rewrite items_keys. exact Ind.
+  - unfold heavy_present. apply forallb_forall. intros k _. apply orb_true_iff.
+    destruct (d_get (tc_map s) k) as [[c dl]|] eqn:G.
+    + right. apply existsb_exists. exists (k, c). split; [|apply Nat.eqb_refl].
+      unfold tc_items. apply in_map_iff. exists (k, (c, dl)). split; [reflexivity|].
+      apply (d_get_In _ _ _ Ind). exact G.
+    + left. specialize (Iu _ G). unfold slack. rewrite <- It. lia.
+  - apply N.eqb_eq. reflexivity.
+  - apply N.eqb_eq. unfold tc_uncommon, tc_common. rewrite items_counts. lia.
+  - apply N.eqb_eq. unfold tc_len, tc_items. rewrite map_length. reflexivity.
+  - apply perm_b_complete. apply sort_desc_perm.
+  - apply sort_desc_sorted.
+  - apply list_eqb_refl. apply kn_eqb_refl.
+  - apply list_eqb_refl. apply Nat.eqb_refl.
+  - apply list_eqb_refl. apply N.eqb_refl.
+  - apply list_eqb_refl. apply Nat.eqb_refl.
+  - apply N.eqb_eq. unfold tc_get, tc_items. symmetry. apply find_items.
+Qed.
+
+(* histories of public operations reduce to the stream of additions *)
+Lemma steps_as_adds ops : forall s, fold_left tc_step ops s = tc_adds s (flat_map op_keys ops).
+Proof.
+  induction ops as [|o r IH]; intro s; cbn [fold_left flat_map]; [reflexivity|].
+  rewrite IH. unfold tc_step, tc_adds. rewrite fold_left_app. reflexivity.
+Qed.
+
+(* ---- the individual clauses of the property, readable ---------------------------- *)
+Lemma never_over w ks k : 1 <= w -> tc_get (tc_adds (tc_init w) ks) k <= true_count ks k.
+Proof.
+  intro Hw. destruct (inv_reachable w ks Hw) as [_ _ _ _ Ie _ _]. unfold tc_get.
+  destruct (d_get _ k) as [[c dl]|] eqn:G; [|lia]. specialize (Ie _ _ _ G). lia.
+Qed.
+
+Lemma under_bounded w ks k : 1 <= w ->
+  true_count ks k - tc_get (tc_adds (tc_init w) ks) k <= N.of_nat (length ks) / w.
+Proof.
+  intro Hw. destruct (inv_reachable w ks Hw) as [_ It _ _ Ie Iu _]. unfold tc_get. rewrite <- It.
+  destruct (d_get _ k) as [[c dl]|] eqn:G.
+  - specialize (Ie _ _ _ G). lia.
+  - specialize (Iu _ G). lia.
+Qed.
+
+Lemma heavy_tracked w ks k : 1 <= w ->
+  N.of_nat (length ks) / w < true_count ks k -> d_mem (tc_map (tc_adds (tc_init w) ks)) k = true.
+Proof.
+  intros Hw H. destruct (inv_reachable w ks Hw) as [_ It _ _ _ Iu _]. unfold d_mem.
+  destruct (d_get _ k) eqn:G; [reflexivity|]. specialize (Iu _ G). rewrite It in Iu. lia.
+Qed.
+
+Lemma common_plus_uncommon w ks : 1 <= w ->
+  let s := tc_adds (tc_init w) ks in tc_common s + tc_uncommon s = tc_total s.
+Proof.
+  intros Hw s. destruct (inv_reachable w ks Hw) as [_ _ _ _ _ _ Is]. fold s in Is.
+  unfold tc_uncommon, tc_common. rewrite items_counts. lia.
+Qed.
+
+Lemma bucket_formula w ks : 1 <= w ->
+  tc_bucket (tc_adds (tc_init w) ks) = N.of_nat (length ks) / w + 1.
+Proof. intro Hw. destruct (inv_reachable w ks Hw) as [_ It Ib _ _ _ _]. rewrite Ib, It. reflexivity. Qed.
+
+Lemma most_common_prefix s n : tc_most_common s (Some n) = firstn n (tc_most_common s None).
+Proof. reflexivity. Qed.
+
+(* ---- the size clause is false of the algorithm ----------------------------------- *)
+Fixpoint range (a n : nat) : list nat :=
+  match n with O => [] | S n' => a :: range (S a) n' end.
+Definition rounds (a n times : nat) : list nat := concat (repeat (range a n) times).
+(* 12 keys x5, 15 x4, 20 x3, 30 x2 (60 additions each), then 59 fresh keys *)
+Definition size_witness : list K :=
+  rounds 0 12 5 ++ rounds 100 15 4 ++ rounds 200 20 3 ++ rounds 300 30 2 ++ range 400 59.
+
+Lemma size_witness_facts :
+  length size_witness = 299%nat /\ tc_len (tc_adds (tc_init 60) size_witness) = 136.
+Proof. vm_compute. split; reflexivity. Qed.
+
+(* every prefix of every history of public operations (add / update with an iterable /
+   update with a mapping or kwargs) *)
+Lemma history_meets_spec w ops i n probe : 1 <= w ->
+  let pre := firstn i ops in
+  let o := observe (fold_left tc_step pre (tc_init w)) n probe in
+  spec_core w (flat_map op_keys pre) (o_total o) (o_items o) (o_common o) (o_uncommon o)
+            (o_mc_all o) (o_mc_n o) n (o_len o) probe (o_probe o) (o_keys o) (o_values o) (o_elems o) = true.
+Proof. intros Hw pre. rewrite steps_as_adds. apply model_meets_spec. exact Hw. Qed.
+
+Lemma size_refuted : exists ks, 2 * 60 < tc_len (tc_adds (tc_init 60) ks).
+Proof. exists size_witness. destruct size_witness_facts as [_ ->]. reflexivity. Qed.
